@@ -211,6 +211,92 @@ class Graph:
                 break
         return walks
 
+    def flip_walks(self, budget=1500, depth=2, seed=0):
+        """Calls that were ACCEPTED a moment ago and are refused now: for an accepted edge (s, a) -> s2 and a state t
+        reached from s2 by at most `depth` moving edges in which the very same call `a` is refused by a single
+        guard, the walk  path(s) . a . path(s2 -> t) . a  .  This is where an implementation that remembers its
+        last positive answer (a cache, a short-lived marker, a flag that is set but never cleared) differs from the
+        specification: the edge cover reaches t by its own shortest history, which need not contain the earlier
+        success of `a`.  Classes (action name, guard, gap) are served round-robin within the step budget."""
+        rnd = random.Random(seed + 15485863)
+        init = self.find_init()
+        prev = {init: None}
+        dq = collections.deque([init])
+        while dq:
+            u = dq.popleft()
+            for ei in self.out.get(u, []):
+                v = self.edges[ei]['_post']
+                if v not in prev:
+                    prev[v] = (u, ei)
+                    dq.append(v)
+
+        def path_to(k):
+            p = []
+            while prev[k] is not None:
+                u, ei = prev[k]
+                p.append(ei)
+                k = u
+            return p[::-1]
+
+        # per node: the single-guard refusals by canonical action
+        refused = {}
+        for k, outs in self.out.items():
+            d = {}
+            for ei in outs:
+                e = self.edges[ei]
+                if e['_post'] == k and not e['exp']['ok'] and len(e['exp'].get('fails', [])) == 1 and not e['exp'].get('free'):
+                    d[canon(e['act'])] = ei
+            if d:
+                refused[k] = d
+        accepted = [i for i, e in enumerate(self.edges) if e['exp']['ok'] and e['_pre'] in prev]
+        rnd.shuffle(accepted)
+        classes = collections.defaultdict(list)
+        cap = max(200, (budget or 100000) // 2)
+        found = 0
+        for ei in accepted[:200000]:
+            e = self.edges[ei]
+            ca = canon(e['act'])
+            # forward search over moving accepted edges, at most `depth` of them, small fan-out
+            frontier = [(e['_post'], [])]
+            seen = {e['_post']}
+            for gap in range(depth + 1):
+                nxt = []
+                for (t, pth) in frontier:
+                    ri = refused.get(t, {}).get(ca)
+                    if ri is not None:
+                        key = (e['act'].get('name'), self.edges[ri]['exp']['fails'][0], gap)
+                        if len(classes[key]) < 40:
+                            classes[key].append(path_to(e['_pre']) + [ei] + pth + [ri])
+                            found += 1
+                    if gap < depth:
+                        outs = [oi for oi in self.out.get(t, []) if self.edges[oi]['exp']['ok'] and self.edges[oi]['_post'] != t]
+                        rnd.shuffle(outs)
+                        for oi in outs[:6]:
+                            v = self.edges[oi]['_post']
+                            if v not in seen:
+                                seen.add(v)
+                                nxt.append((v, pth + [oi]))
+                frontier = nxt[:24]
+            if found >= cap * 4:
+                break
+        walks, steps = [], 0
+        keys = sorted(classes.keys(), key=lambda k: (str(k[0]), str(k[1]), k[2]))
+        i = 0
+        while keys and (budget is None or steps < budget):
+            progressed = False
+            for k in keys:
+                if i < len(classes[k]):
+                    w = classes[k][i]
+                    walks.append(w)
+                    steps += len(w)
+                    progressed = True
+                    if budget is not None and steps >= budget:
+                        break
+            if not progressed:
+                break
+            i += 1
+        return walks
+
     def single_guard_refusals(self):
         probes = {}
         for k, outs in self.out.items():
@@ -279,7 +365,7 @@ class Graph:
         return tree
 
 
-def write_walks(path, inst, graph, walks, control=None, evkinds=None):
+def write_walks(path, inst, graph, walks, control=None, evkinds=None, modes=None):
     with open(path, 'w') as f:
         inst = dict(inst)
         if evkinds is not None:
@@ -301,7 +387,10 @@ def write_walks(path, inst, graph, walks, control=None, evkinds=None):
                     if c is not None:
                         s['control'] = c
                 steps.append(s)
-            f.write(json.dumps({'id': wi, 'init': init, 'steps': steps}) + '\n')
+            rec = {'id': wi, 'init': init, 'steps': steps}
+            if modes and wi in modes:
+                rec['aging'] = modes[wi]       # "A": ledgers pass between calls but no long pauses (see flip_walks)
+            f.write(json.dumps(rec) + '\n')
 
 
 if __name__ == '__main__':
